@@ -55,6 +55,8 @@ def main():
     # weighted grammar with the consumers of production weights (progressively-terminal decider, stack machine)
     for rk in ("tree", "ge", "stack"):
         for alg in ("GP", "RS"):
+            configs.append({"rep": rk, "alg": alg, "grammar": "weighted2", "seed": R.randint(0, 10 ** 6), "init": "standard",
+                            "evals": 40, "pop": 8, "decider": "pt", "minimize": R.random() < 0.5})
             configs.append({"rep": rk, "alg": alg, "grammar": "weighted", "seed": R.randint(0, 10 ** 6), "init": "standard",
                             "evals": 40, "pop": 8, "decider": "pt", "minimize": R.random() < 0.5})
     for gname in (["arith", "weighted"] if quick else ["arith", "weighted", "nested", "mutual", "refined"]):
